@@ -438,6 +438,9 @@ type Refinement struct {
 	Commits   int
 	Stutters  int
 	committed []string
+	// Relaxed: the scenario injects I/O faults, so what a call returns is not judged (C04 states its
+	// acknowledgement rule 'in the absence of I/O faults'); transitions and the final view still are.
+	Relaxed bool
 }
 
 func NewRefinement(prop string, cfg reftable.Config, initial *refdb.DB) *Refinement {
@@ -560,6 +563,9 @@ func (m *Refinement) AfterOp(w *mc.World, ev *mc.Event) {
 
 // Ack checks the acknowledgement rule when an Add / Commit returns.
 func (m *Refinement) Ack(w *mc.World, pid int, what string, res string, ps []*Pending, rejectionExpected bool) {
+	if m.Relaxed {
+		return
+	}
 	committed, total := 0, 0
 	for _, p := range ps {
 		if p.Txn.Empty() {
